@@ -51,7 +51,7 @@ fn c01_total(v: &[Val]) -> Result<bool, String> {
     chk!("adj", a.adj()); chk!("opp", a.opp()); chk!("cos", Geonum::cos(x)); chk!("sin", Geonum::sin(x)); chk!("project_to_angle", a.project_to_angle(x));
     chk!("Angle*Geonum", x * a); chk!("Angle+Geonum", x + a); chk!("pow2", a.pow(2.0)); chk!("scalar", Geonum::scalar(f));
     if b.mag >= 1e-30 { chk!("tan", Geonum::tan(x)); }
-    for (name, r) in [("inv", catches(move || b.inv())), ("div", catches(move || a / b)), ("div()", catches(move || a.div(&b))), ("normalize", catches(move || b.normalize()))] {
+    for (name, r) in [("inv", catches(move || b.inv())), ("div", catches(move || a / b)), ("a / &b", catches(move || a / &b)), ("&a / b", catches(move || &a / b)), ("&a / &b", catches(move || &a / &b)), ("div()", catches(move || a.div(&b))), ("normalize", catches(move || b.normalize()))] {
         match r { Some(g) => { if b.mag == 0.0 { return Err(format!("{} did not panic on a zero magnitude", name)); } gok(name, &g)?; }
                   None => if b.mag != 0.0 { return Err(format!("{} panicked on a non-zero magnitude {:e}", name, b.mag)); } }
     }
@@ -305,6 +305,15 @@ fn c17_coll(v: &[Val]) -> Result<bool, String> {
                      if !l.iter().any(|g| same_geonum(g, d)) { return Err("dominant is not a member".into()); }
                      if l.iter().any(|g| g.mag > d.mag) { return Err(format!("dominant {} is not maximal", show_g(d))); } }
     }
+    // a non-empty collection of zero-magnitude members still has a (zero) maximum
+    let zeros: Vec<Geonum> = l.iter().map(|g| Geonum::new_with_angle(0.0, g.angle)).collect();
+    for (what, zc) in [("zeroed copy", GeoCollection::from(zeros.clone())), ("scale_all(0.0)", c.scale_all(0.0))] {
+        match zc.dominant() {
+            None => if !l.is_empty() { return Err(format!("dominant is None on a non-empty all-zero collection ({}, {} members)", what, l.len())); },
+            Some(d) => { if l.is_empty() { return Err("dominant is Some on an empty collection".into()); }
+                         if d.mag != 0.0 || !zc.objects.iter().any(|g| same_geonum(g, d)) { return Err(format!("dominant of an all-zero collection ({}) is not a member", what)); } }
+        }
+    }
     Ok(l.len() > 1)
 }
 /// sequences of collection operations against a plain-vector reference
@@ -361,6 +370,10 @@ fn c18_helpers(v: &[Val]) -> Result<bool, String> {
     let n = Geonum::new_with_angle(a.angle.grade_angle().sin().abs() + q, b.angle);
     let rf = a.refract(n);
     is("refract", rf, Geonum::new_with_angle(a.mag, Angle::new((a.angle.grade_angle().sin() / n.mag).asin(), PI)))?;
+    if a.angle.grade_angle().sin() != 0.0 {
+        let n0 = Geonum::new_with_angle(a.angle.grade_angle().sin().abs(), b.angle);
+        is("refract at n = |sin t_in|", a.refract(n0), Geonum::new_with_angle(a.mag, Angle::new((a.angle.grade_angle().sin() / n0.mag).asin(), PI)))?;
+    }
     is("otf", a.otf(b, c), Geonum::new_with_angle(a.mag / (c.mag * b.mag), a.angle + qt))?;
     let m = a.magnify(b);
     is("magnify", m, Geonum::new_with_angle(a.mag * (1.0 / (b.mag * b.mag)), Angle::new(-a.angle.grade_angle().sin() / b.mag, PI)))?;
@@ -434,6 +447,14 @@ fn c19_laws(v: &[Val]) -> Result<bool, String> {
     if rf.mag.to_bits() != a.mag.to_bits() { return Err("refraction changed the magnitude".into()); }
     let sout = rf.angle.grade_angle().sin();
     if (n * sout - sin_in).abs() > n * (2.0 * TOL + 16.0 * EPS) + 16.0 * EPS { return Err(format!("Snell: n sin(t_out) = {:e} but sin(t_in) = {:e}", n * sout, sin_in)); }
+    // the closed end of the domain: n bit-equal to |sin t_in| (critical incidence); skipped when sin is 0 (index 0 divides by zero)
+    if sin_in != 0.0 {
+        let n0 = sin_in.abs();
+        let r0 = a.refract(Geonum::new_with_angle(n0, b.angle));
+        if r0.mag.to_bits() != a.mag.to_bits() { return Err("refraction at the critical angle changed the magnitude".into()); }
+        let s0 = r0.angle.grade_angle().sin();
+        if (n0 * s0 - sin_in).abs() > n0 * (2.0 * TOL + 16.0 * EPS) + 16.0 * EPS { return Err(format!("Snell at the critical angle (n = |sin t_in| = {:e}): n sin(t_out) = {:e} but sin(t_in) = {:e}", n0, n0 * s0, sin_in)); }
+    }
     // magnification: intensity ∝ 1/m²
     let (m1, m2) = (a.magnify(b), a.magnify(Geonum::new_with_angle(b.mag * s, b.angle)));
     if relerr(m2.mag * s * s, m1.mag) > 16.0 * EPS { return Err("magnification does not scale intensity by 1/m^2".into()); }
